@@ -271,3 +271,338 @@ def dist_regenerate(ctx, rule="ALG-dist"):
     if saw != {True, False}:
         ck.fail("both selection cases handled", f"cases seen: {sorted(saw)}")
     ck.done()
+
+
+# ====================================================================== handlers
+ADDR = ("param", "addr")
+GF = ("param", "gen_fn")
+
+
+def more_axioms(x):
+    """CHOICES algebra used by the handler/SMC rules (justified by core.get_choices: recursive unwrap,
+    idempotent Fixed-stripping, a Fn trace's choices at `addr` are the sub-trace's choices)."""
+    if is_call(x, name="CHOICES"):
+        a = x[2][0]
+        if is_call(a, name="CHOICES"):
+            return a
+        if a[0] == "ifexp":
+            return ("ifexp", a[1], CH(a[2]), CH(a[3]))
+        if is_const(a, None):
+            return a
+        if a[0] == "attr" and a[2] == "_choices":
+            return CH(a[1])
+    if x[0] == "idx" and is_call(x[1], name="CHOICES"):
+        inner = x[1][2][0]
+        return CH(("idx", CH(inner), x[2])) if False else CH(("idx", ("attr", inner, "_choices"), x[2]))
+    if x[0] == "idx" and x[1][0] == "attr" and x[1][2] == "_choices" and False:
+        return None
+    return None
+
+
+def handler_call_args(argname):
+    return (("star", ("param", argname)),), ((None, ("param", "kwargs")),)
+
+
+def field_final(s, name):
+    return s.env.get(("attr", SELF, name))
+
+
+def map_store(s, mapname, key=ADDR):
+    return s.env.get(("idx", ("attr", SELF, mapname), key))
+
+
+def collision_guard(ctx, ck, s, ev, lin, callee_attr):
+    """GUARD: an address-collision check on (addr, self's own visited structure) precedes the callee call."""
+    pos_check, pos_call, structure = None, None, None
+    for i, e in enumerate(s.events):
+        if e[1] != "call":
+            continue
+        t = e[2]
+        if t[1][0] == "name" and t[1][1] in (CORE + "_check_address_collision", CORE + "_check_address_collision_visited"):
+            if len(t[2]) >= 2 and t[2][0] == ADDR and t[2][1][0] == "attr" and t[2][1][1] == SELF and not e[0]:
+                if pos_check is None:
+                    pos_check, structure = i, (t[1][1], t[2][1][2])
+        if t[1] == ("attr", GF, callee_attr) and pos_call is None:
+            pos_call = i
+    if pos_call is None:
+        ck.fail("callee invoked", f"no gen_fn.{callee_attr}(...) call found")
+        return
+    if pos_check is None or pos_check > pos_call:
+        ck.fail("address-collision check precedes the sub-call", "no unconditional _check_address_collision(addr, self.<visited>) before the callee call")
+        return
+    fn, fld = structure
+    # the structure checked must be the one this handler records into
+    if fn.endswith("_visited"):
+        return  # the helper itself adds addr to the set (checked in collision_helpers)
+    if map_store(s, fld) is None:
+        ck.fail("collision structure is recorded", f"self.{fld}[addr] is never written although it is the structure checked for collisions")
+
+
+def collision_helpers(ctx, rule="GUARD-collision"):
+    ev = mk_ev(ctx)
+    for nm, adds in (("_check_address_collision", False), ("_check_address_collision_visited", True)):
+        dotted = CORE + nm
+        s = summarize(ctx, ev, dotted)
+        ck = Checker(ctx, ev, mk_lin(ev), rule, "core." + nm, func_loc(ctx, dotted))
+        params = s.params
+        a, st = ("param", params[0]), ("param", params[1])
+        raises = [e for e in s.events if e[1] == "raise"]
+        good = [e for e in raises if any(c == ("cmp", "in", a, st) and pol for c, pol in e[0])]
+        if not good:
+            ck.fail("raises when the address was already used", f"no `raise` guarded by `{params[0]} in {params[1]}`")
+        else:
+            exc = good[0][2]
+            if not (is_call(exc) and exc[1] == N("builtins.ValueError")):
+                ck.fail("raises ValueError", f"raises {short(exc, ev)}")
+        if adds:
+            addcalls = [e for e in s.events if e[1] == "call" and e[2][1] == ("attr", st, "add") and e[2][2] == (a,)]
+            if not any(not any(c == ("cmp", "in", a, st) and pol for c, pol in e[0]) for e in addcalls):
+                ck.fail("records the address after the check", "visited.add(addr) missing on the non-colliding path")
+        ck.done()
+
+
+def handler_rule(ctx, hname, rule="ALG-handler"):
+    ev = mk_ev(ctx)
+    dotted = CORE + hname + ".__call__"
+    s = summarize(ctx, ev, dotted)
+    lin = mk_lin(ev, extra=[more_axioms])
+    ck = Checker(ctx, ev, lin, rule, f"core.{hname}.__call__", func_loc(ctx, dotted))
+    params = s.params
+    ctx.need(len(params) >= 4, f"{dotted}: unexpected signature {params}")
+    argname = params[3]
+    AP, KP = ("param", argname), ("param", params[4] if len(params) > 4 else "kwargs")
+    star, kw = (("star", AP),), ((None, KP),)
+    method = {"Simulate": "simulate", "Generate": "generate", "Assess": "assess", "Update": "update", "Regenerate": "regenerate"}[hname]
+    collision_guard(ctx, ck, s, ev, lin, method)
+    cm = ("attr", SELF, "choice_map")
+    old = ("attr", SELF, "trace")
+    subtrace = ("idx", ("attr", old, "_choices"), ADDR)
+
+    def sub(*pre):
+        return ("call", ("attr", GF, method), tuple(pre) + star, kw)
+
+    def acc(field, init_field, term, label):
+        got = field_final(s, field)
+        if got is None:
+            ck.fail(label, f"self.{field} is never updated")
+            return
+        ck.lineq(label, got, ("binop", "+", ("attr", SELF, field), term))
+
+    if hname == "Simulate":
+        t = sub()
+        acc("score", "score", SC(t), "score accumulates the sub-trace score")
+        ck.eq("trace_map[addr] = sub-trace", map_store(s, "trace_map") or NONE, t)
+        ck.eq("returns the sub-call's retval", s.ret, RV(t))
+    elif hname == "Generate":
+        x = ("ifexp", ("cmp", "in", ADDR, cm), CH(("idx", cm, ADDR)), NONE)
+        t = sub(x)
+        tr_, w_ = ("idx", t, C(0)), ("idx", t, C(1))
+        acc("score", "score", SC(tr_), "score accumulates the sub-trace score")
+        acc("weight", "weight", w_, "weight accumulates exactly the sub-call weight")
+        ck.eq("trace_map[addr] = sub-trace", map_store(s, "trace_map") or NONE, tr_)
+        ck.eq("returns the sub-call's retval", s.ret, RV(tr_))
+    elif hname == "Assess":
+        x = CH(("idx", cm, ADDR))
+        t = sub(x)
+        acc("logp", "logp", ("idx", t, C(0)), "logp accumulates exactly the sub-call density")
+        ck.eq("returns the sub-call's retval", s.ret, ("idx", t, C(1)))
+    elif hname == "Update":
+        x = ("ifexp", ("cmp", "in", ADDR, cm), CH(("idx", cm, ADDR)), CH(subtrace))
+        t = sub(subtrace, x)
+        tr_, w_, d_ = ("idx", t, C(0)), ("idx", t, C(1)), ("idx", t, C(2))
+        acc("score", "score", SC(tr_), "score accumulates the new sub-trace score")
+        acc("weight", "weight", w_, "weight accumulates exactly the sub-call weight")
+        ck.eq("trace_map[addr] = new sub-trace", map_store(s, "trace_map") or NONE, tr_)
+        ck.eq("discard[addr] = sub-call discard", map_store(s, "discard") or NONE, d_)
+        ck.eq("returns the sub-call's retval", s.ret, RV(tr_))
+    elif hname == "Regenerate":
+        subsel = ("idx", ("call", ("attr", ("attr", SELF, "s"), "match"), (ADDR,), ()), C(1))
+        t = sub(subtrace, subsel)
+        tr_, w_, d_ = ("idx", t, C(0)), ("idx", t, C(1)), ("idx", t, C(2))
+        acc("score", "score", SC(tr_), "score accumulates the new sub-trace score")
+        acc("weight", "weight", w_, "weight accumulates exactly the sub-call weight")
+        ck.eq("trace_map[addr] = new sub-trace", map_store(s, "trace_map") or NONE, tr_)
+        ck.eq("discard[addr] = sub-call discard", map_store(s, "discard") or NONE, d_)
+        ck.eq("returns the sub-call's retval", s.ret, RV(tr_))
+    ck.done()
+    ctx.sample({"rule": rule, "construct": f"core.{hname}.__call__", "return": short(lin.norm(s.ret), ev, 300)})
+
+
+# ====================================================================== Fn
+HANDLER_OF = {"simulate": "Simulate", "generate": "Generate", "assess": "Assess", "update": "Update", "regenerate": "Regenerate"}
+
+
+def fn_rule(ctx, method, rule="ALG-Fn"):
+    ev = mk_ev(ctx, self_inline={"simulate"})
+    dotted = CORE + "Fn." + method
+    s = summarize(ctx, ev, dotted)
+    lin = mk_lin(ev)
+    ck = Checker(ctx, ev, lin, rule, f"core.Fn.{method}", func_loc(ctx, dotted))
+    HS = N(CORE + "handler_stack")
+    pop = ("call", N(CORE + "handler_stack.pop"), (), ())
+    r = ("call", ("attr", ("attr", SELF, "source"), "value"), (("star", ARGS),), ((None, KW),))
+    X = ("param", "x")
+
+    def handler_ctor(hname, guard_pred=None):
+        """Find the pushed handler construction for class hname; check push < source call < pop order."""
+        push = src = popi = None
+        pushed = None
+        for i, e in enumerate(s.events):
+            if e[1] != "call":
+                continue
+            t = e[2]
+            if t[1] == N(CORE + "handler_stack.append") and len(t[2]) == 1 and is_call(t[2][0], name=CORE + hname):
+                if push is None:
+                    push, pushed = i, t[2][0]
+            elif t[1] == r[1] and push is not None and src is None:
+                src = i
+                if t != r:
+                    ck.fail(f"{hname}: source called with the method's own arguments", f"found {short(t, ev)}")
+            elif t[1] == N(CORE + "handler_stack.pop") and src is not None and popi is None:
+                popi = i
+        if push is None or src is None or popi is None:
+            ck.fail(f"{hname}: push, run source, pop — in this order", f"push={push} source={src} pop={popi}")
+            return None
+        # no second pop / push in this method for this handler
+        return pushed
+
+    def zero(t, label):
+        ck.lineq(label, t, C(0))
+
+    def fresh(t, label, kind):
+        if t != (kind, ()):
+            if not (kind == "set" and (t == ("call", N("builtins.set"), (), ()) or t is None)):
+                ck.fail(label, f"expected a fresh empty {kind}, found {short(t, ev) if t is not None else 'default'}")
+
+    def expect_tr(t, hterm, label):
+        f = tr_fields(ev, lin.norm(t))
+        if f is None:
+            ck.fail(label, f"expected Tr(...), found {short(t, ev)}")
+            return
+        g, a, chs, rv, sc = f
+        ck.eq(label + " gen_fn", g, SELF)
+        check_args_recorded(ck, a)
+        ck.eq(label + " choices = the popped handler's trace_map", chs, ("attr", hterm, "trace_map"))
+        ck.eq(label + " retval = source(*args, **kwargs) of this run", rv, r)
+        ck.eq(label + " score = the popped handler's score", sc, ("attr", hterm, "score"))
+
+    def check_handler_fields(pushed, expected):
+        for fld, (kind, val) in expected.items():
+            got = ev.ctor_field(pushed, fld)
+            if kind == "zero":
+                if got is None:
+                    ck.fail(f"handler.{fld} initialised", "missing")
+                else:
+                    zero(got, f"handler.{fld} starts at 0")
+            elif kind == "fresh":
+                fresh(got, f"handler.{fld} starts empty", val)
+            elif kind == "eq":
+                if got is None:
+                    ck.fail(f"handler.{fld} initialised", "missing")
+                else:
+                    ck.eq(f"handler.{fld}", got, val)
+
+    hname = HANDLER_OF[method]
+    if method == "simulate":
+        pushed = handler_ctor(hname)
+        if pushed is not None:
+            check_handler_fields(pushed, {"score": ("zero", None), "trace_map": ("fresh", "dict"), "parent_fn": ("eq", SELF)})
+            for asg, leaf in spine_cases(s.ret):
+                expect_tr(leaf, pop, "simulate")
+    elif method == "generate":
+        pushed = handler_ctor(hname)
+        saw = set()
+        for asg, leaf in spine_cases(s.ret):
+            pol = None
+            for c, v in asg.items():
+                rr = none_test(c, X)
+                if rr is None:
+                    raise AnalysisError(f"core.Fn.generate: unrecognised branch condition {short(c, ev)}")
+                pol = (rr == v)
+            it = items(leaf)
+            if it is None or len(it) != 2:
+                ck.fail("generate returns (trace, weight)", f"found {short(leaf, ev)}")
+                continue
+            saw.add(pol)
+            if pol:
+                # simulate + weight 0: the trace must come from a Simulate handler run
+                f = tr_fields(ev, lin.norm(it[0]))
+                if f is None or f[2] != ("attr", pop, "trace_map"):
+                    ck.fail("generate(None) = simulate", f"found {short(it[0], ev)}")
+                zero(it[1], "generate(None) weight = 0")
+            else:
+                expect_tr(it[0], pop, "generate(x)")
+                ck.eq("weight = the popped handler's weight", it[1], ("attr", pop, "weight"))
+        if pushed is not None:
+            check_handler_fields(pushed, {"choice_map": ("eq", X), "score": ("zero", None), "weight": ("zero", None),
+                                          "trace_map": ("fresh", "dict"), "parent_fn": ("eq", SELF)})
+        if True not in saw:
+            ck.fail("generate accepts None (whole sub-call unconstrained)", "no `x is None` case")
+    elif method == "assess":
+        pushed = handler_ctor(hname)
+        if pushed is not None:
+            check_handler_fields(pushed, {"choice_map": ("eq", X), "logp": ("zero", None), "visited_addresses": ("fresh", "set"),
+                                          "parent_fn": ("eq", SELF)})
+        for asg, leaf in spine_cases(s.ret):
+            it = items(leaf)
+            if it is None or len(it) != 2:
+                ck.fail("assess returns (density, retval)", f"found {short(leaf, ev)}")
+                continue
+            ck.eq("density = the popped handler's logp", it[0], ("attr", pop, "logp"))
+            ck.eq("retval = source(*args, **kwargs) of this run", it[1], r)
+    else:
+        pushed = handler_ctor(hname)
+        if pushed is not None:
+            exp = {"trace": ("eq", TR), "trace_map": ("fresh", "dict"), "discard": ("fresh", "dict"),
+                   "score": ("zero", None), "weight": ("zero", None), "parent_fn": ("eq", SELF)}
+            if method == "update":
+                got = ev.ctor_field(pushed, "choice_map")
+                X_ = ("param", "x_")
+                want = ("ifexp", ("cmp", "is", X_, NONE), ("dict", ()), X_)
+                alt = ("boolop", "or", (X_, ("dict", ())))
+                if got not in (want, alt, X_):
+                    ck.fail("handler.choice_map = constraints (None → {})", f"found {short(got, ev) if got else None}")
+            else:
+                exp["s"] = ("eq", ("param", "s"))
+            check_handler_fields(pushed, exp)
+        for asg, leaf in spine_cases(s.ret):
+            it = items(leaf)
+            if it is None or len(it) != 3:
+                ck.fail(f"{method} returns (trace, weight, discard)", f"found {short(leaf, ev)}")
+                continue
+            expect_tr(it[0], pop, method)
+            ck.eq("weight = the popped handler's weight", it[1], ("attr", pop, "weight"))
+            ck.eq("discard = the popped handler's discard", it[2], ("attr", pop, "discard"))
+    # the popped object is asserted to be this method's handler class (PAIR: push/pop belong together)
+    asserts = [e for e in s.events if e[1] == "assert"]
+    if not any(is_call(e[2], name="builtins.isinstance") and e[2][2] == (pop, N(CORE + hname)) for e in asserts):
+        ctx.observe(rule, f"core.Fn.{method}", "popped handler is not asserted to be of the pushed class")
+    ck.done()
+
+
+def handler_stack_ownership(ctx, rule="OWN-handler_stack"):
+    """Only Fn.* push/pop handler_stack; trace() reads [-1]; GFI.__call__ tests truthiness."""
+    writers, readers = [], []
+    for mn, m in ctx.p.modules.items():
+        for node in ast.walk(m.tree):
+            if isinstance(node, ast.Attribute) and isinstance(node.value, ast.Name) and node.value.id == "handler_stack" \
+                    and ctx.p.resolve_name(mn, "handler_stack") == CORE + "handler_stack":
+                if node.attr in ("append", "pop", "clear", "insert", "remove", "extend"):
+                    writers.append((mn, node.lineno, node.attr))
+    allowed = set()
+    kind, cls, mod, _ = ctx.p.get_class(CORE + "Fn")
+    for st in cls.body:
+        if isinstance(st, ast.FunctionDef):
+            for n in ast.walk(st):
+                if hasattr(n, "lineno"):
+                    allowed.add(n.lineno)
+    outside = [w for w in writers if not (w[0] == "genjax.core" and w[1] in allowed)]
+    pushes = sum(1 for w in writers if w[2] == "append")
+    pops = sum(1 for w in writers if w[2] == "pop")
+    ctx.need(pushes >= 5, f"handler_stack pushes found: {pushes} (< 5)")
+    if outside:
+        ctx.bad(rule, "core.handler_stack", "mutated outside Fn", f"handler_stack mutated outside Fn methods at {outside}", f"{outside[0][0]}:{outside[0][1]}")
+    elif pushes != pops:
+        ctx.bad(rule, "core.handler_stack", "push/pop count", f"{pushes} pushes vs {pops} pops in Fn", "src/genjax/core.py")
+    else:
+        ctx.ok(rule, "core.handler_stack", f"{pushes} push/pop pairs, all inside Fn methods")
